@@ -1,5 +1,5 @@
 import DcmVerif.Proofs.Code_simplify
-/-! The tie by proof (dcmmeta.py: _get_const_period, is_constant, is_repeating): functions translated from the Python source on every run
+/-! The tie by proof (dcmmeta.py: _simplify, _get_const_period, is_constant, is_repeating): functions translated from the Python source on every run
 (`tools/gen_code.py` → `Generated/Code_simplify.lean`) are the model functions the property theorems speak about.
 Statements only; proofs are by reference to `Proofs/Code_simplify.lean`. One file per function group, so that an edit
 of one function only unsettles the properties that depend on it. -/
@@ -31,7 +31,18 @@ theorem get_const_period_is_model (e : DExt κ α) (h3 : 3 ≤ e.shape.length) (
       .ok (constPeriod e.shp src dest) :=
   Src.get_const_period_eq e h3 h5 hsl src dest hs hd htab
 
-/-- the translator translated every function of this group (dcmmeta.py: _get_const_period, is_constant, is_repeating) -/
+/-- **`_simplify` as written in dcmmeta.py is the model's `simplifyK`** for one key of an extension with three to five axes and a
+    slice dimension whose base dictionaries are the ones valid for its shape: the same Boolean, the same single write (class and
+    values) followed by the deletion from the old class — or only the deletion of a constant `None` — and `ValueError` exactly when
+    the model's list tests reject their arguments -/
+theorem simplify_is_model [DecidableEq α] (null : α) (e : DExt κ α) (h3 : 3 ≤ e.shape.length) (h5 : e.shape.length ≤ 5)
+    (hsl : e.sliceDim.isSome = true) (hbase : ∀ d, basePresent e.shp d = true → d ∈ validClasses e.shp)
+    (c : Cls) (hc : c ∈ validClasses e.shp) (vals : List α) :
+    Py.simplify null e.shape (e.sliceDim.map fun d => e.shape.getD d 1) (contentOf e) vals c =
+      errOf ((simplifyK null e.shp c vals).map (fxOf c)) :=
+  Src.simplify_eq null e h3 h5 hsl hbase c hc vals
+
+/-- the translator translated every function of this group (dcmmeta.py: _simplify, _get_const_period, is_constant, is_repeating) -/
 theorem translator_complete_simplify : Gen.codeMissing_simplify = [] := rfl
 
 end Source
